@@ -80,7 +80,7 @@ class C11(Prop):
             case["arrays"] = [self.gen_array(rng, ndim, allnan=rng.random() < 0.08) for _ in range(n)]
             if rng.random() < 0.25:  # a common translation, also large and beyond the exactly representable doubles
                 big = rng.random() < 0.4
-                t = [rng.choice([2 ** 53, -(2 ** 53), 2 ** 53 + 2, 3 - 2 ** 55, 2 ** 60 + 1, -(2 ** 62) + 5]) + rng.randint(-3, 3)
+                t = [rng.choice([2 ** 53, -(2 ** 53), 2 ** 53 + 2, 3 - 2 ** 55, 2 ** 56 + 1, -(2 ** 57) + 5]) + rng.randint(-3, 3)
                      if big else rng.randint(-1000, 1000) for _ in range(ndim)]
                 for a in case["arrays"]:
                     a["off"] = [o + d for o, d in zip(a["off"], t)]
@@ -112,6 +112,16 @@ class C11(Prop):
     def evaluate(self, case, ctx):
         from pewlib.process import register
 
+        # the canvas is the bounding box: a case (e.g. derived by a shrinker) whose box is astronomically large cannot
+        # be evaluated by anyone; it is outside what this check explores
+        lo = [min(a["off"][k] for a in case["arrays"]) for k in range(case["ndim"])]
+        hi = [max(a["off"][k] + a["shape"][k] for a in case["arrays"]) for k in range(case["ndim"])]
+        cells = 1
+        for l, h in zip(lo, hi):
+            cells *= h - l
+        if cells > 2_000_000:
+            return outcome({"excluded": "canvas too large"}, None, None, spec_ok=True, model_ok=True, undetermined=True,
+                           hyp=False, features=["excluded:canvas-too-large"])
         ndim, mode = case["ndim"], case["mode"]
         fill = math.nan if case["fill"] is None else case["fill"] / 4
         dfill = None if case["fill"] is None else core.rat(Fraction(case["fill"], 4))
@@ -210,10 +220,10 @@ class C11(Prop):
                         sub = arr[tuple(sl)]
                         b = {"off": a["off"], "shape": list(sub.shape), "data": list(sub.ravel())}
                         yield {**case, "arrays": arrs[:i] + [b] + arrs[i + 1:]}
-                if any(o != 0 for o in a["off"]):
-                    b = {**a, "off": [0 if abs(o) > 5 else o for o in a["off"]]}
-                    if b != a:
-                        yield {**case, "arrays": arrs[:i] + [b] + arrs[i + 1:]}
+            # remove a large common translation (all arrays together, so the box stays small)
+            mins = [min(a["off"][k] for a in arrs) for k in range(case["ndim"])]
+            if any(abs(m) > 5 for m in mins):
+                yield {**case, "arrays": [{**a, "off": [o - m for o, m in zip(a["off"], mins)]} for a in arrs]}
 
 
 PROP = C11()
